@@ -26,13 +26,14 @@ func init() {
 		Level: "exploration",
 		Rule: "cases 0-255 enumerate every byte string of length <=2 (65,793 strings: complete) through all decoders; the other cases are seeded batches of 400 values each (2^k+-d for all k and d<=3, every bit-length class, extremes, random u64 also read as int64 and as float64 bit patterns incl. NaN/Inf/subnormals/negatives, integer-valued floats below 2^53) " +
 			"and 400 random byte strings up to 12 bytes biased to continuation bytes, each also followed by arbitrary trailing bytes. The first case a worker process runs starts with a probe of one function family (size functions or codecs, in rotating order) before anything else of the package has run in that process. Oracle = independent reference codec written from the documentation: identical bytes, exact round trip ((v+1)-1 for varfloat), 1<=len<=9 == size function, framing, io.EOF on every strict prefix with the slice untouched, int32 range check, no panic, <=9 bytes consumed. " +
-			"Non-trivial = batch containing a 9-byte encoding and a length-class boundary value; distinct = hash of the batch's values.",
+			"Race-detector pass: in a race-instrumented build, 4 processes x 8 goroutines encode and decode their own values into their own buffers with no synchronisation; every round trip is verified and any DATA RACE report is a violation (the functions must not keep shared mutable state between calls). Non-trivial = batch containing a 9-byte encoding and a length-class boundary value; distinct = hash of the batch's values.",
 		Cases:     core.Scale(256+10000, 256+250000),
-		Mandatory: []string{"oracle.roundtrips", "oracle.prefix_eof", "oracle.hostile_strings", "exhaustive.strings_len_le2", "encoding.len9", "oracle.varint32_rejects", "oracle.fresh_process_probes"},
+		Mandatory: []string{"oracle.roundtrips", "oracle.prefix_eof", "oracle.hostile_strings", "exhaustive.strings_len_le2", "encoding.len9", "oracle.varint32_rejects", "oracle.fresh_process_probes", "race.codec_calls"},
 		Assumptions: []string{
 			"the reference codec in /verif/harness/internal/wire is itself correct with respect to the format documentation",
 		},
-		Run: runC18,
+		Run:  runC18,
+		Post: raceC18,
 	})
 }
 
